@@ -8,7 +8,7 @@
 // Everything of this check lives in this one file and every identifier is
 // prefixed c18/C18, so that the file can be moved into another package by
 // changing the package clause only.
-package types_c18
+package types
 
 import (
 	"encoding/json"
